@@ -56,7 +56,6 @@ macro_rules! arb {
                 f(v);
             }
             kani::cover!(r.is_ok(), "some input yields a value");
-            kani::cover!(r.is_err(), "some input runs out of bytes");
         }
     };
 }
